@@ -44,6 +44,16 @@ Print Assumptions C19_old_acceptConn_refuted.
    state in which no thread is enabled the mesh is complete) and a measure
    (3 x program-counter rank + 2 x backlog length + accept-thread bit, summed
    over the parties) that every non-stuttering step strictly decreases.
+   THREAD CREATION ORDER: in Proto/Mesh.v the accept thread of a joining party
+   is created by the step MRecvInfo — the step that processes the leader's peer
+   list and sets need[] (connectPeerToLeader), i.e. AFTER the sync with the
+   leader; before that step connections dialled to the party wait in its
+   listener backlog.  C19_complete is proved for THAT order: an accept loop
+   started before need[] is set would meet need[c] = 0 ("too many connections")
+   and is not the model.  Harness c19 freezes the statement order (go nw.accept
+   after connectPeerToLeader in connectPeer; key
+   c19:thread-creation-order:unmodelled:...) and runs slow-leader-link scenarios
+   (one party's data from the leader delayed by 100..400 ms).
    TIME IS NOT MODELLED: a schedule is just an interleaving, so the theorem
    holds whatever real-time delay lies between two steps — in particular
    between a party's Join and its Connect, between an accept and the arrival of
